@@ -304,8 +304,18 @@ def machine(tier, record, timeup):
             if self.state is not None and self.history:
                 if self.out.ok and not timeup():
                     from .common import quiet
-                    with quiet():
-                        final_check(self.state, self.out)
+                    try:
+                        with quiet():
+                            final_check(self.state, self.out)
+                    except HarnessError:
+                        raise
+                    except Exception as e:
+                        import traceback
+                        origin, where = _frame_origin(e.__traceback__)
+                        if origin != 'repo':
+                            raise HarnessError('harness exception %s: %s\n%s' % (where, e, traceback.format_exc()))
+                        self.out.fail('exception:%s' % type(e).__name__, '%s: %s (warm-start convergence check)' % (type(e).__name__, e), where)
+                        self.out.extra['traceback'] = traceback.format_exc()[-3000:]
                 finish(self.state, self.out)
                 record({'init': self.init, 'ops': self.history}, self.out)
 
